@@ -146,11 +146,17 @@ theorem expanded_comments_in_order (q : Quirks) (hh : q.atRuleHoists = false) (h
     (flatItems [] st.root).filter isComment = (logBody q ops {} p []).filter isComment := by
   rw [(C20.bubble_preserves_order q hh hm hs ops p st h).1]
 
-/-- the same for the CODE AS IT IS NOW (after 242f60b), whenever the run lost nothing -/
+/-- the same for the code after the first fix round (after 242f60b), whenever the run lost nothing -/
+theorem expanded_comments_in_order_afterRound1 (ops : Ops σ) (p : List (Core σ)) (st : St σ)
+    (h : emitTop Quirks.afterRound1 ops p = .ok st) (hl : st.lost = 0) :
+    (flatItems [] st.root).filter isComment = (logBody Quirks.afterRound1 ops {} p []).filter isComment := by
+  rw [(C20.bubble_preserves_order_afterRound1 ops p st h hl).1]
+
+/-- THE CODE AS IT IS NOW (`Quirks.now`): unconditional -/
 theorem expanded_comments_in_order_now (ops : Ops σ) (p : List (Core σ)) (st : St σ)
-    (h : emitTop Quirks.now ops p = .ok st) (hl : st.lost = 0) :
-    (flatItems [] st.root).filter isComment = (logBody Quirks.now ops {} p []).filter isComment := by
-  rw [(C20.bubble_preserves_order_now ops p st h hl).1]
+    (h : emitTop Quirks.now ops p = .ok st) :
+    (flatItems [] st.root).filter isComment = (logBody Quirks.now ops {} p []).filter isComment :=
+  expanded_comments_in_order Quirks.now rfl rfl rfl ops p st h
 
 /-- comments of an output tree in document order -/
 def bodyComments : List (BodyItem Nat) → List Nat
@@ -182,8 +188,8 @@ theorem order_spec : commentsOf (emitTop Quirks.spec C20.natOps orderWitness) = 
 rule copy and inserts that copy at index 0, so it is emitted BEFORE `/*4*/`. -/
 theorem order_asis_refutation : commentsOf (emitTop Quirks.asis C20.natOps orderWitness) = some [5, 4] := by rfl
 
-/-- the code as it is now emits them in source order -/
-theorem order_now : commentsOf (emitTop Quirks.now C20.natOps orderWitness) = some [4, 5] := by rfl
+/-- the code after the first fix round emits them in source order -/
+theorem order_afterRound1 : commentsOf (emitTop Quirks.afterRound1 C20.natOps orderWitness) = some [4, 5] := by rfl
 
 /-- `expanded_comments_in_order_partial` (code as it is): the order is kept whenever the
 comments of an at-rule frame are not preceded by a nested rule — e.g. here. -/
